@@ -90,6 +90,14 @@ func c12Scenarios(level int) []c12Scenario {
 				{ID: id + "#", Package: "example.com/m/model", Root: "Human"}, {ID: id, Output: "out/person.go"}, {ID: id + "/", Root: "Slash", Output: "out/slash.go"},
 				{ID: "HTTPS://EXAMPLE.COM/schemas/person", Root: "Upper", Output: "out/upper.go"}}}})
 	}
+	// one output file named by a relative and by an absolute spelling of its path in two mapping flags
+	{
+		oa := J{"$id": "https://example.com/oa", "type": "object", "properties": J{"a": str}}
+		ob := J{"$id": "https://example.com/ob", "type": "object", "properties": J{"b": in}, "required": A{"b"}}
+		sc = append(sc, c12Scenario{"output-relative-and-absolute", []genlab.File{{Path: "oa.json", Content: space.Text(oa)}, {Path: "ob.json", Content: space.Text(ob)}}, []string{"oa.json", "ob.json"},
+			genlab.Cfg{Package: "example.com/m/p", ResolveExt: []string{".json"}, Mappings: []genlab.Mapping{
+				{ID: "https://example.com/oa", Package: "example.com/m/p", Output: "gen/out.go"}, {ID: "https://example.com/ob", Package: "example.com/m/p", Output: "$PWD/gen/out.go"}}}})
+	}
 	// YAML input with many keys
 	yml := "$id: https://example.com/y\ntype: object\nproperties:\n  one: {type: string}\n  two: {type: integer}\n  three:\n    type: object\n    properties:\n      k1: {type: string}\n      k2: {type: boolean}\n      k3: {type: number}\nrequired: [one, two]\ndefinitions:\n  D1: {type: object, properties: {a: {type: string}}}\n  D2: {type: object, properties: {b: {type: string}}}\n"
 	sc = append(sc, c12Scenario{"yaml", []genlab.File{{Path: "s.yaml", Content: yml}}, []string{"s.yaml"}, genlab.Cfg{Package: "s", ResolveExt: []string{".yaml"}}})
@@ -296,6 +304,16 @@ func siteOf(tr []genlab.TracePoint, s []int) string {
 	return "?"
 }
 
+// c12Subst replaces the placeholder $PWD in command-line arguments by the directory the tool is run in (an absolute spelling of a path
+// below it).
+func c12Subst(args []string, dir string) []string {
+	out := make([]string, len(args))
+	for i, a := range args {
+		out[i] = strings.ReplaceAll(a, "$PWD", dir)
+	}
+	return out
+}
+
 // c12CLI explores main.go's map iterations in the instrumented binary (subprocess backend).
 func c12CLI(ctx *Ctx, sc c12Scenario, states, transitions, validated *int) {
 	bin := filepath.Join(ws.Root(), "gojsonschema-sched")
@@ -311,7 +329,7 @@ func c12CLI(ctx *Ctx, sc c12Scenario, states, transitions, validated *int) {
 		}
 		os.Setenv("VERIF_SCHEDULE", strings.Join(ss, ","))
 		os.Setenv("VERIF_TRACE", tf)
-		r := genlab.RunCLI(bin, d, append(sc.cfg.Flags(), sc.args...), "", 60*time.Second)
+		r := genlab.RunCLI(bin, d, c12Subst(append(sc.cfg.Flags(), sc.args...), d), "", 60*time.Second)
 		os.Unsetenv("VERIF_SCHEDULE")
 		os.Unsetenv("VERIF_TRACE")
 		var tr []genlab.TracePoint
@@ -552,6 +570,7 @@ func c12Locations(ctx *Ctx, sc c12Scenario, transitions, validated *int) {
 		for _, a := range sc.args {
 			args = append(args, l.spell(l.dir, a))
 		}
+		args = c12Subst(args, l.dir)
 		r := genlab.RunCLI(bin, l.dir, args, "", 60*time.Second)
 		var sb strings.Builder
 		fmt.Fprintf(&sb, "exit=%d\nstdout:\n%s\n", r.Exit, r.Stdout)
@@ -586,7 +605,7 @@ func c12Locations(ctx *Ctx, sc c12Scenario, transitions, validated *int) {
 		os.RemoveAll(l.dir)
 		genlab.Materialise(l.dir, sc.files)
 		os.MkdirAll(filepath.Join(l.dir, "updir"), 0o755)
-		args := append(append([]string{}, sc.cfg.Flags()...), sc.args...)
+		args := c12Subst(append(append([]string{}, sc.cfg.Flags()...), sc.args...), l.dir)
 		first := genlab.RunCLI(bin, l.dir, args, "", 60*time.Second)
 		outs := 0
 		for _, n := range genlab.TreeNames(first.Files) {
